@@ -23,7 +23,7 @@ func init() {
 			commit, eager bool
 		}
 		lvNames := []string{"all RR", "all SER", "RR/RC alternating", "RU then RR", "RC then SER/RR alternating"}
-		orderNames := []string{"oldest first", "youngest first", "even then odd"}
+		orderNames := []string{"oldest first", "youngest first", "even then odd", "all but the youngest back to back, then one pass"}
 		level := func(pat, i int) model.Level {
 			switch pat {
 			case 0:
@@ -87,6 +87,8 @@ func init() {
 				for i := c.n - 1; i >= 0; i-- {
 					order = append(order, i)
 				}
+			case 3:
+				// filled in below
 			default:
 				for i := 0; i < c.n; i += 2 {
 					order = append(order, i)
@@ -95,12 +97,26 @@ func init() {
 					order = append(order, i)
 				}
 			}
+			if c.order == 3 {
+				// the collector gets to trim a long history in one pass while the youngest snapshot is open
+				for i := 0; i < c.n-1; i++ {
+					k := seq.Rollback
+					if c.commit {
+						k = seq.Commit
+					}
+					h = append(h, seq.Op{Kind: k, Actor: i})
+				}
+				h = append(h, seq.Op{Kind: seq.GC}, seq.Op{Kind: seq.Set, Actor: model.Auto, Key: "a"}, seq.Op{Kind: seq.Set, Actor: model.Auto, Key: "b"})
+				order = []int{c.n - 1}
+			}
 			for _, i := range order {
 				k := seq.Rollback
 				if c.commit {
 					k = seq.Commit // read-only transactions: Commit succeeds at every level
 				}
 				h = append(h, seq.Op{Kind: k, Actor: i}, seq.Op{Kind: seq.GC})
+				// the keys go on being written while the younger snapshots are still open
+				h = append(h, seq.Op{Kind: seq.Set, Actor: model.Auto, Key: "a"})
 			}
 			h = append(h, seq.Op{Kind: seq.Set, Actor: model.Auto, Key: "a"}, seq.Op{Kind: seq.GC})
 			return h
